@@ -55,6 +55,17 @@ fn verif_yield(point: &'static str) {
     }
 }
 
+#[cfg(tracing_toolbox_verif)]
+static VERIF_WEAK_HASH: std::sync::atomic::AtomicBool = std::sync::atomic::AtomicBool::new(false);
+
+/// Verification hook: while switched on, every call-site description hashes to the same bucket,
+/// so that the bucket scans (`eq_metadata`, the re-scan of the bucket tail) are exercised.
+/// Descriptions interned while the switch is on must not be used while it is off and vice versa.
+#[cfg(tracing_toolbox_verif)]
+pub fn verif_set_weak_hash(on: bool) {
+    VERIF_WEAK_HASH.store(on, std::sync::atomic::Ordering::SeqCst);
+}
+
 /// Verification hook: numbers of interned strings and metadata objects.
 #[cfg(tracing_toolbox_verif)]
 pub fn verif_arena_stats() -> (usize, usize) {
@@ -196,6 +207,10 @@ impl Arena {
     // The returned hash doesn't necessarily match the hash of `Metadata`, but it is the same
     // for the equivalent `(kind, data)` tuples, which is what we need.
     fn hash_metadata(data: &CallSiteData) -> u64 {
+        #[cfg(tracing_toolbox_verif)]
+        if VERIF_WEAK_HASH.load(std::sync::atomic::Ordering::SeqCst) {
+            return 0;
+        }
         let mut hasher = DefaultHasher::new();
         data.hash(&mut hasher);
         hasher.finish()
